@@ -23,10 +23,22 @@ from dali.gear.general import EnableDeviceType
 _cache = {}
 
 
+def decode(f, devicetype=0, dev_inst_map=None):
+    """from_frame() of the library; a frame it refuses to decode (it should not:
+    every frame is some command, if only an unknown one) becomes a bare Command so
+    that the harness can still put the frame on the bus and see what the code
+    under test makes of it."""
+    try:
+        return dali.command.from_frame(f, devicetype=devicetype, dev_inst_map=dev_inst_map)
+    except Exception:                               # noqa: BLE001
+        c = dali.command.Command(f)
+        c._undecodable = True
+        return c
+
+
 def mk_cmd(spec, dev_inst_map=None):
     bits, value, dt = spec
-    f = dali.frame.ForwardFrame(bits, value)
-    return dali.command.from_frame(f, devicetype=dt, dev_inst_map=dev_inst_map)
+    return decode(dali.frame.ForwardFrame(bits, value), dt, dev_inst_map)
 
 
 def spec_of(cmd):
